@@ -17,6 +17,7 @@ Definition run (req : sexp) : sexp :=
   | Li [At "C13"; x] => run_C13 x
   | Li [At "sys"; x] => run_sys x
   | Li [At "des"; x] => run_des x
+  | Li [At "finish"; x] => run_finish x
   | Li [At "C08"; x] => run_C08 x
   | _ => bad_request
   end.
